@@ -258,7 +258,25 @@ def ftype_name(f):
 def cache_obs(t: pdt.Table) -> dict:
     """raw observation of a table's Cache (UUIDs as strings; dict orders preserved)"""
     c = t._cache
+    api = None
+    try:
+        api = dict(iter=[col.name for col in t], len=len(t), dir=list(dir(t)), contains=all((n in t) for n in c.name_to_uuid))
+    except Exception as e:  # noqa: BLE001
+        api = dict(error=type(e).__name__)
+    fa = None
+    try:
+        from pydiverse.transform._internal.pipe.cache import Cache as _Cache
+
+        r = _Cache.from_ast(t._ast)
+        fa = [f for f in ("name_to_uuid", "uuid_to_name", "partition_by", "limit", "group_by", "is_filtered")
+              if (list(getattr(r, f).items()) if isinstance(getattr(r, f), dict) else getattr(r, f)) !=
+                 (list(getattr(c, f).items()) if isinstance(getattr(c, f), dict) else getattr(c, f))]
+        if list(r.cols.keys()) != list(c.cols.keys()):
+            fa.append("cols")
+    except Exception as e:  # noqa: BLE001
+        fa = ["error:" + type(e).__name__]
     return dict(
+        api=api, from_ast_diff=fa,
         visible=[[n, str(u)] for n, u in c.name_to_uuid.items()],
         uuid_to_name=[[str(u), n] for u, n in c.uuid_to_name.items()],
         cols=[[str(u), col.name, realtypes.dt_text(col._dtype) if col._dtype is not None else None, ftype_name(col._ftype)]
